@@ -11,11 +11,11 @@ _PROBE = "; generated code comes from api.Generate run at check time on two hand
 
 CLAIMED = {
     "C01": {
-        "text": "bounded: freshly generated executors (2 configurations quick, 7 thorough) executed symbolically with their goroutines; for 16 operation families (incl. lists of scalars, @skip and @include on one node, an object with a single resolver-backed field under aliases) with symbolic @skip/@include variables and resolver/directive outcomes in {value,null,error} (deviation budget 1 quick / 2 thorough) the data bytes and the multiset of error paths equal an independent reference implementation of the GraphQL execution algorithm; one genuine deviation (error path of a null scalar-list element) is recorded as a known finding; subscriptions: one response per event equal to the reference for that event",
+        "text": "bounded: freshly generated executors (2 configurations quick, 7 thorough) executed symbolically with their goroutines; for 16 operation families (incl. lists of scalars, @skip and @include on one node, an object with a single resolver-backed field under aliases) with symbolic @skip/@include variables and resolver/directive outcomes in {value,null,error} (deviation budget 1 quick / 2 thorough) the data bytes and the multiset of error paths equal an independent reference implementation of the GraphQL execution algorithm; one genuine deviation (error path of a null scalar-list element) is recorded as a known finding; subscriptions: one response per event equal to the reference for that event; the families whose list elements of different concrete types merge type-conditioned selections also on every completion order of the concurrently resolved elements (resolvers gated, race check)",
         "design_ref": "DESIGN.md section 4, C01", "note": _N + _PROBE, "technique": _T,
     },
     "C04": {
-        "text": "bounded fault enumeration decided by the solver-driven explorer: {error, panic} at every resolver/directive position of the families (single faults quick, pairs thorough), on calling and spawned goroutines and list elements, worker_limit 0/1/2: response equals the reference with that position failed, recover hook once per panic, no panic escapes a goroutine; the same for faults inside and outside deferred groups of 7 @defer operations against a defer-aware reference; the field interceptor failing around any one field; faults while subscribing, inside a subscription event, and while a websocket operation is dispatched",
+        "text": "bounded fault enumeration decided by the solver-driven explorer: {error, panic} at every resolver/directive position of the families (single faults quick, pairs thorough), on calling and spawned goroutines and list elements, worker_limit 0/1/2: response equals the reference with that position failed, recover hook once per panic, no panic escapes a goroutine; the same for faults inside and outside deferred groups of 7 @defer operations against a defer-aware reference; the field interceptor failing around any one field; faults while subscribing, inside a subscription event, and while a websocket operation is dispatched; several non-null siblings / list elements failing concurrently on every completion order incl. a preemption between reporting an error and asking whether one was reported (one error per failing position; such a violation is replayed natively up to 3000 times until the window is hit)",
         "design_ref": "DESIGN.md section 4, C04", "note": _N + _PROBE, "technique": _T,
     },
     "C05": {
@@ -39,7 +39,7 @@ CLAIMED = {
         "design_ref": "DESIGN.md section 4, C16", "note": _N + "; arbitrary schemas and byte-level SDL reconstruction are outside the bound", "technique": _T,
     },
     "C20": {
-        "text": "bounded: generated __resolve_entities / resolveEntity / resolveManyEntities on lists of up to 2 (quick) / 3 (thorough) representations over 15 shapes with at most one failing lookup, entity resolvers honouring their context, incl. the explicit_requires and computed_requires options; every completion order of groups and entity goroutines with a happens-before race check on the result list; the genuine defect found (multi resolver with several keys) is fixed in /repo",
+        "text": "bounded: generated __resolve_entities / resolveEntity / resolveManyEntities on lists of up to 2 (quick) / 3 (thorough) representations over 15 shapes with at most one failing lookup, entity resolvers honouring their context, incl. the explicit_requires and computed_requires options and entities whose @requires sets overlap and reach into a nested external object; every completion order of groups and entity goroutines with a happens-before race check on the result list; the genuine defect found (multi resolver with several keys) is fixed in /repo",
         "design_ref": "DESIGN.md section 4, C20", "note": _N + _PROBE, "technique": _T + "; schedule exploration",
     },
     "C06": {
@@ -55,7 +55,7 @@ CLAIMED = {
         "design_ref": "DESIGN.md section 4, C03", "note": _N, "technique": _T,
     },
     "C07": {
-        "text": "one-step induction on the POST parameter pool (arbitrary body x executor outcome incl. panics; pooled object all-zero again) plus all two-request histories over an 11-body corpus; other transports allocate per request (checked by the same harness family as C09); server/executor/transport graph and package globals frozen across a request; the same text under different variables against one executor with a query cache, sequentially (cached document frozen) and concurrently on every explored schedule with a happens-before race check",
+        "text": "one-step induction on the POST parameter pool (arbitrary body x executor outcome incl. panics; pooled object all-zero again) plus all two-request histories over an 11-body corpus; other transports allocate per request (checked by the same harness family as C09); server/executor/transport graph and package globals frozen across a request; the same text under different variables against one executor with a query cache, sequentially (cached document frozen) and concurrently on every explored schedule with a happens-before race check; the complexity gate after the same cached text was served with other variable values",
         "design_ref": "DESIGN.md section 4, C07", "note": _N + "; sync.Pool modelled as LIFO-or-New", "technique": _T,
     },
     "C08": {
@@ -63,11 +63,11 @@ CLAIMED = {
         "design_ref": "DESIGN.md section 4, C08", "note": _N, "technique": _T,
     },
     "C09": {
-        "text": "bounded: Server.ServeHTTP -> GET/POST/GRAPHQL/UrlEncodedForm transports -> real Executor and gqlparser (interpreted) with an ExecutableSchema fake, over 10 documents x operationName x 9 Accept headers x 4 ResponseHeaders settings, malformed-request corpus, unsupported requests; status, Content-Type, JSON body, 'GET only queries', 'exactly the named operation' asserted on a ResponseWriter fake; also with the document supplied by an operation-parameter mutator (APQ hash-only requests), for two-request sequences, for content negotiation across two requests with configured response headers, and for transport selection (both transport orders x method x request Content-Type x where the document is)",
+        "text": "bounded: Server.ServeHTTP -> GET/POST/GRAPHQL/UrlEncodedForm/MultipartForm transports (mime/multipart interpreted from source) -> real Executor and gqlparser (interpreted) with an ExecutableSchema fake, over 12 documents x operationName x 9 Accept headers x 4 ResponseHeaders settings, malformed-request corpus, unsupported requests; status, Content-Type, JSON body, 'GET only queries', 'exactly the named operation' asserted on a ResponseWriter fake; also with the document supplied by an operation-parameter mutator (APQ hash-only requests), for two-request sequences, for content negotiation across two requests with configured response headers, and for transport selection (both transport orders x method x request Content-Type x where the document is); with an error presenter that rewrites the presented error in place the status of an invalid request stays a client error on all five transports; two genuine defects found (status taken after the presenter ran; Content-Type lost under configured headers) are fixed in /repo",
         "design_ref": "DESIGN.md section 4, C09", "note": _N, "technique": _T,
     },
     "C10": {
-        "text": "bounded: AddUpload over variables trees of depth <=2 x corpus paths; bytesReader from an arbitrary valid state with full-width offsets; malformed bodies on every HTTP transport; MultipartForm.Do over 12 part layouts x spill x over-limit (with and without Content-Length) x OS faults with multipart/os/http dependencies as name-intercepted stubs",
+        "text": "bounded: AddUpload over variables trees of depth <=2 x corpus paths; bytesReader from an arbitrary valid state with full-width offsets; malformed bodies on every HTTP transport incl. 15 malformed multipart bodies x 4 Content-Type headers through the real mime/multipart reader; MultipartForm.Do over 12 part layouts x spill x over-limit (with and without Content-Length) x OS faults with multipart/os/http dependencies as name-intercepted stubs",
         "design_ref": "DESIGN.md section 4, C10", "note": _N, "technique": _T,
     },
     "C15": {
@@ -75,7 +75,7 @@ CLAIMED = {
         "design_ref": "DESIGN.md section 4, C15", "note": _N + "; SHA-256 computed natively on concrete texts, mapstructure.Decode is a contract model validated by the native replays", "technique": _T,
     },
     "C14": {
-        "text": "safeAdd is decided for all 2^128 operand pairs (bit-vector SMT, no bound) against an independent saturating reference; complexity walk and limit gate bounded as listed in the evidence; the gate end to end through executor.CreateOperationContext with argument-dependent custom costs and arguments supplied by variables",
+        "text": "safeAdd is decided for all 2^128 operand pairs (bit-vector SMT, no bound) against an independent saturating reference; complexity walk and limit gate bounded as listed in the evidence; the gate end to end through executor.CreateOperationContext with argument-dependent custom costs and arguments supplied by variables; the generated Complexity() switch incl. two GraphQL fields bound to one Go field",
         "design_ref": "DESIGN.md section 4, C14",
         "note": "trusts go/ssa, the engine's instruction semantics (validated by native replay of sampled paths), z3",
         "technique": "symbolic execution of go/ssa + SMT (z3 bit-vectors), counterexample replay on the native build",
